@@ -52,6 +52,14 @@ func c07(c *hc.Ctx) {
 	for it := 0; it < np; it++ {
 		kinds := []string{"L", "LQC", "LQCA", "A", "LAZ"}[c.Intn(5)]
 		p := c.GenPath(kinds, 5, 2)
+		if c.Chance(0.2) {
+			// large radii: flat arcs whose ellipse equation has tiny entries (1/r^2)
+			f := []float64{10, 40, 150}[c.Intn(3)]
+			rx := (math.Abs(c.GenCoord()) + 0.5) * f
+			p.MoveTo(c.GenCoord(), c.GenCoord())
+			p.ArcTo(rx, rx*c.Range(0.85, 1.15), float64(c.Intn(24))*15, c.Bool(), c.Bool(), c.GenCoord(), c.GenCoord())
+			c.Count("large-radius-arc")
+		}
 		m := GenMatrix(c)
 		det := m.Det()
 		if math.Abs(det) < 1e-3 {
